@@ -42,6 +42,7 @@ type Result struct {
 	Notes       []string         `json:"notes"`
 	Internal    []string         `json:"internal"` // harness errors: make the check "broken", never a violation
 	Done        bool             `json:"done"`
+	Seq         int64            `json:"seq"` // number of owned cases handled so far (checkpoints)
 }
 
 // Worker runs one shard of a check.
@@ -63,6 +64,13 @@ type Worker struct {
 
 	// MaxPerSig bounds how many violations with one signature are kept in full.
 	MaxPerSig int
+
+	// checkpointing (resumable checks): cases with sequence number <= resume were handled by an earlier
+	// incarnation of this shard whose partial result the supervisor already holds
+	seq      int64
+	resume   int64
+	ckptPath string
+	lastCkpt time.Time
 }
 
 const maxOutcomes = 20000
@@ -178,6 +186,11 @@ func (w *Worker) Case(key string, fn func() *Violation) {
 
 // RunCase is Case without sharding/deduplication.
 func (w *Worker) RunCase(key string, fn func() *Violation) {
+	w.seq++
+	if w.seq <= w.resume {
+		return
+	}
+	defer w.checkpoint()
 	w.Res.Distinct++
 	if kind, ok := w.skip[key]; ok {
 		w.Res.Evaluations++
@@ -224,6 +237,19 @@ func (w *Worker) AddViolation(v *Violation) {
 	}
 	v.Count = 1
 	w.Res.Violations = append(w.Res.Violations, *v)
+}
+
+// checkpoint writes the partial result every few seconds so that a restarted shard need not redo finished cases.
+func (w *Worker) checkpoint() {
+	if w.ckptPath == "" || w.seq%32 != 0 || time.Since(w.lastCkpt) < 3*time.Second {
+		return
+	}
+	w.lastCkpt = time.Now()
+	w.Res.Seq = w.seq
+	tmp := w.ckptPath + ".tmp"
+	if w.Res.write(tmp) == nil {
+		os.Rename(tmp, w.ckptPath) //nolint:errcheck
+	}
 }
 
 func (w *Worker) safe(fn func() *Violation) (v *Violation, perr string) {
